@@ -49,6 +49,8 @@ type seekableDecryptingReader struct {
 	segStart  int64 // plaintext offset where the buffered segment begins
 	plaintext []byte
 	segBuf    []byte
+
+	endVerified bool // last segment has been authenticated
 }
 
 const (
@@ -112,6 +114,15 @@ func newSeekableDecryptingReader(r io.ReadSeeker, base int64, mainKey []byte, aa
 	plaintextLen := ciphertextLen - int64(tinkHeaderLen) - tinkTagSize*numSegments
 	if plaintextLen < 0 {
 		return nil, errors.New("ciphertext too short for segment count")
+	}
+	// Every segment carries its own tag: a trailing fragment shorter than a tag
+	// can only be the remainder of a truncated segment.
+	lastLen := ciphertextLen - (numSegments-1)*css
+	if numSegments == 1 {
+		lastLen -= int64(tinkHeaderLen)
+	}
+	if lastLen < tinkTagSize {
+		return nil, errors.New("truncated ciphertext: last segment shorter than tag")
 	}
 
 	return &seekableDecryptingReader{
@@ -198,6 +209,17 @@ func (s *seekableDecryptingReader) loadSegment(j int64) error {
 
 func (s *seekableDecryptingReader) Read(p []byte) (int, error) {
 	if s.pos >= s.plaintextLen {
+		// The end of the stream is only authentic if the last segment decrypts
+		// with the last-segment flag; it may not have been loaded yet when it
+		// holds no plaintext (empty part, or a truncation that left only a tag).
+		if !s.endVerified {
+			if s.segIndex != s.numSegments-1 {
+				if err := s.loadSegment(s.numSegments - 1); err != nil {
+					return 0, err
+				}
+			}
+			s.endVerified = true
+		}
 		return 0, io.EOF
 	}
 	j := s.segmentForPlaintextOffset(s.pos)
